@@ -27,6 +27,7 @@ static void mk_structured(void) {
 }
 static void judge_pair(u64 a, u64 b, u64* pairs, u64* cons) {
   (*pairs)++;
+  if ((*pairs & 0x3fffff) == 0) { printf("TICK\n"); fflush(stdout); } /* heartbeat for the parent's watchdog */
   bool s = _cbor_safe_to_multiply((size_t)a, (size_t)b);
   if (s && a * b > MAXV) FAIL("_cbor_safe_to_multiply(%llu, %llu) says safe but the product exceeds %llu", a, b, MAXV);
   else if (!s && a * b <= MAXV) (*cons)++;
